@@ -657,10 +657,12 @@ def factor_add_terms_ex(
 
     # If there are variables, we want to extract them, so
     # the smallest number to factor out. TODO: is this okay?
+    # NOTE: use the builtins so that the factor stays a plain Python number. The numpy
+    #       reductions return fixed-width integers that wrap in later arithmetic.
     if has_left or has_right:
-        best = np.min(common)
+        best = min(common)
     else:
-        best = np.max(common)
+        best = max(common)
     result = FactorResult()
     result.best = best
     result.left = l_factors[best]
